@@ -1673,8 +1673,8 @@ class TimePoint:
             return hash(
                 tuple(getattr(self, attr) for attr in self.__slots__))
         point = self._normalise_end_of_day().to_utc()
-        return hash((*point.get_calendar_date(),
-                     *point.get_hour_minute_second()))
+        # N.B. Hash what _cmp compares, so that equal points hash equally
+        return hash((*point.get_calendar_date(), point.get_second_of_day()))
 
     def _cmp(self, other: "TimePoint", op: str) -> bool:
         """Compare self with other, using the chosen operator.
@@ -1700,8 +1700,11 @@ class TimePoint:
                     return _operator_map[op](self_attr, other_attr)
             return True
         # N.B. 24:00 is 00:00 on the following day
-        me = self._normalise_end_of_day()
-        other = other._normalise_end_of_day().to_time_zone(me._time_zone)
+        # N.B. Compare in UTC, like __hash__, not in the time zone of one of
+        # the operands: with float noise in decimal time units the answer
+        # must not depend on which operand is on the left.
+        me = self._normalise_end_of_day().to_utc()
+        other = other._normalise_end_of_day().to_utc()
         if me.get_is_calendar_date():
             my_date = me.get_calendar_date()
             other_date = other.get_calendar_date()
